@@ -215,10 +215,18 @@ func (c *sharedStub) Shutdown(context.Context) error {
 type instHost struct {
 	id  *componentstatus.InstanceID
 	rep status.Reporter
+	// seam: called at the entry of every Report made to this instance's host (the replay to a late-attached instance
+	// comes through here too)
+	seam func()
 }
 
 func (h instHost) GetExtensions() map[component.ID]component.Component { return nil }
-func (h instHost) Report(e *componentstatus.Event)                     { h.rep.ReportStatus(h.id, e) }
+func (h instHost) Report(e *componentstatus.Event) {
+	if h.seam != nil {
+		h.seam()
+	}
+	h.rep.ReportStatus(h.id, e)
+}
 
 // runC11Shared: one component wrapped by the real internal/sharedcomponent and represented by 2-4 instances (as a
 // receiver serving several signals). The tape interleaves "the service starts the next instance" (Starting from the
@@ -277,11 +285,34 @@ func runC11Shared(r *simkit.Run) {
 			}
 		}
 	}
+	// A report of the component that arrives WHILE a late instance is being attached (from another goroutine of the
+	// component, at the k-th event shown to the new instance): it must end up as everybody's status all the same.
+	var concTask *simkit.Task
+	var concStatus st
+	armAt := -1
 	attach := func() {
 		i := attached
+		host := instHost{id: ids[i], rep: rep}
+		if armAt >= 0 && i > 0 && stub.host != nil {
+			seen := 0
+			k, x := armAt, concStatus
+			host.seam = func() {
+				seen++
+				if seen-1 != k || concTask != nil || armAt < 0 {
+					return // (armAt < 0: the attachment is over, the seam is for reports made during it)
+				}
+				r.Count("fault.component_report_during_late_attach")
+				concTask = simkit.Go("report-during-attach", func(*simkit.Task) {
+					componentstatus.ReportStatus(stub.host, componentstatus.NewEvent(x))
+				})
+				for j := 0; j < 300; j++ {
+					runtime.Gosched()
+				}
+			}
+		}
 		// the service: Starting, Start, automatic OK if the instance is still Starting
 		rep.ReportStatus(ids[i], componentstatus.NewEvent(sStart))
-		if err := comps[i].Start(context.Background(), instHost{id: ids[i], rep: rep}); err != nil {
+		if err := comps[i].Start(context.Background(), host); err != nil {
 			// the one Start of the shared component failed: the wrapper reports PermanentError on the component's
 			// behalf (to every instance, also those attached later), and so does the service for this instance
 			rep.ReportStatus(ids[i], componentstatus.NewPermanentErrorEvent(err))
@@ -302,7 +333,25 @@ func runC11Shared(r *simkit.Run) {
 	for s := 0; s < steps && !r.Failed(); s++ {
 		if attached < ninst && tp.Chance(1, 4) {
 			i := attached
+			armAt, concTask = -1, nil
+			if last != nil && (*last == sOK || *last == sRec) && tp.Chance(1, 2) {
+				armAt = tp.Draw(3)
+				concStatus = sOK
+				if *last == sOK {
+					concStatus = sRec
+				}
+			}
 			r.Fire(fmt.Sprintf("attach:%d", i), attach)
+			armAt = -1
+			if concTask != nil {
+				// the concurrent reporter blocks on plain mutexes only; nobody holds them now
+				for !concTask.Done() {
+					runtime.Gosched()
+				}
+				x := concStatus
+				last = &x
+				nrep++
+			}
 			if nrep >= 5 {
 				r.Count("probe.late_instance_attached_after_5_or_more_reports")
 			}
